@@ -79,9 +79,9 @@ func encodeGo(v reflect.Value, canon bool) interface{} {
 		return J{"w32": strconv.FormatUint(uint64(uint32(v.Int())), 10)}
 	case reflect.Uint32:
 		return J{"w32": strconv.FormatUint(v.Uint(), 10)}
-	case reflect.Int64:
+	case reflect.Int64, reflect.Int: // (a cast to plain `int`: 64 bits on this platform)
 		return J{"w64": strconv.FormatUint(uint64(v.Int()), 10)}
-	case reflect.Uint64:
+	case reflect.Uint64, reflect.Uint:
 		return J{"w64": strconv.FormatUint(v.Uint(), 10)}
 	case reflect.Float32:
 		return J{"f32": strconv.FormatUint(uint64(math.Float32bits(float32(v.Float()))), 10)}
@@ -191,7 +191,7 @@ func DecodeGo(j interface{}, target reflect.Value, wrappers map[string]reflect.T
 				target.SetInt(int64(int32(uint32(u64(x)))))
 			}
 		case "w64":
-			if t.Kind() == reflect.Uint64 {
+			if t.Kind() == reflect.Uint64 || t.Kind() == reflect.Uint {
 				target.SetUint(u64(x))
 			} else {
 				target.SetInt(int64(u64(x)))
